@@ -99,29 +99,6 @@ def sma(a, w):
     return np.array([a[max(0, i - w): i + w + 1].mean() for i in range(len(a))], dtype=np.float64)
 
 
-def sma_f7_model(a, w):
-    """What the recorded defect F7 produces: sample 0 never leaves the window, and the initial
-    count is w even when fewer than w samples exist."""
-    a = np.asarray(a, dtype=np.float64)
-    n = len(a)
-    if w == 0:
-        return a.copy()
-    out = np.empty(n)
-    asum = a[:w].sum()
-    count = w
-    for i in range(n):
-        jo = i - w - 1
-        if jo > 0:
-            count -= 1
-            asum -= a[jo]
-        ji = i + w
-        if ji < n:
-            count += 1
-            asum += a[ji]
-        out[i] = asum / count
-    return out
-
-
 # ------------------------------------------------------------------------------------------------
 # natural breaks goodness of split
 # ------------------------------------------------------------------------------------------------
